@@ -126,6 +126,27 @@ func (p c15) Gen(seed uint64, enum int, tier string) json.RawMessage {
 		s.Consumer, s.End = "prompt", "close"
 		return mustJSON(s)
 	}
+	if r.Chance(8) {
+		// the state in which the forwarder's two selects are two-ready on purpose:
+		// events waiting in a buffered source, a consumer that needs several
+		// picks per result, and a cancellation placed by the tape while a result
+		// is pending (runs of this flavour are marked nondet; the oracles accept
+		// either legal branch)
+		s.BothReady = true
+		s.SrcBuf = 2 + r.Intn(2)
+		for n := 3 + r.Intn(3); n > 0; n-- {
+			s.Events = append(s.Events, 0)
+		}
+		s.Consumer = []string{"slow", "slow", "prompt"}[r.Intn(3)]
+		s.End = []string{"cancel", "close+cancel"}[r.Intn(2)]
+		for _, c := range c15AllPark {
+			if r.Chance(80) {
+				s.Park = append(s.Park, c)
+			}
+		}
+		s.Sticky = []int{0, 30, 60}[r.Intn(3)]
+		return mustJSON(s)
+	}
 	if r.Chance(12) {
 		s.Req = c15OKReqs + r.Intn(len(c15Reqs)-c15OKReqs)
 	}
